@@ -2,9 +2,9 @@ SPECIFICATION Spec
 CONSTANTS
   Names <- NamesAll
   NodeKind <- TreeKind
-  AltKinds <- AltGiven
+  AltKinds <- AltAll
   CbKinds <- CbAll
-  MaxCalls = 2
+  MaxCalls = 1
   CallbackOnce = TRUE
 CONSTRAINT ExportC
 INVARIANT Denotation
